@@ -113,15 +113,24 @@ def run(ck):
             or plat["__BYTE_ORDER__"] != plat["__ORDER_LITTLE_ENDIAN__"] or plat["__SIZEOF_INT__"] != 4 \
             or plat["__SIZEOF_LONG__"] != 8:
         raise vlib.BuildError("platform is not x86-64 SysV with x87 long double: the translator's type table does not apply", str(plat))
+    # a body that leaves the translator's subset (or a missing function) is a broken tie: no theorem is about
+    # the current code any more.  The tie violation is reported at the end; before that the real functions are
+    # still run against the IEEE-754 classes / glibc (both configurations, deep bulk run) so that a concrete
+    # misclassified bit pattern is reported whenever the rewritten body has one.
+    tie_err = None
+    info = {"functions": [], "stats": {}}
     try:
         lean_src, info = t3.translate(pre, fp, "platform: " + ", ".join("%s=%s" % kv for kv in sorted(plat.items())))
+        missing = [n for n in NEEDED if n not in info["functions"]]
+        if missing:
+            tie_err = vlib.BuildError("T3: functions missing from IEEE754.ixx: %s" % ", ".join(missing), info["source"][-2000:])
     except t3.Unsupported as e:
-        raise vlib.BuildError("T3: IEEE754.ixx left the supported C subset: %s" % e, str(e))
-    missing = [n for n in NEEDED if n not in info["functions"]]
-    if missing:
-        raise vlib.BuildError("T3: functions missing from IEEE754.ixx: %s" % ", ".join(missing), info["source"][-2000:])
-    ck.write_gen("TfelVerif/C16/Gen.lean", lean_src)
-    ck.log("T3: translated %s (%s)" % (", ".join(info["functions"]), info["stats"]))
+        tie_err = vlib.BuildError("T3: IEEE754.ixx left the supported C subset: %s" % e, str(e))
+    if tie_err is None:
+        ck.write_gen("TfelVerif/C16/Gen.lean", lean_src)
+        ck.log("T3: translated %s (%s)" % (", ".join(info["functions"]), info["stats"]))
+    else:
+        ck.log("T3 FAILED (%s): no theorem applies to this tree; running the real functions against the spec" % tie_err.what)
 
     # ------------------------------------------------------------------ harnesses: the real functions, two configurations
     refo = ck.cxx("c16ref.o", ["C16/ref.cxx"], flags=("-c",), opt="-O1")
@@ -133,7 +142,7 @@ def run(ck):
         bins = {name: f.result() for name, f in futs.items()}
 
     # ------------------------------------------------------------------ 2. theorems
-    res = lean_checked(ck, PROPS, PROPS)
+    res = lean_checked(ck, PROPS, PROPS) if tie_err is None else None
 
     pats = patterns(rng, ck.quick)
     text = "".join("%s %s\n" % p for p in pats)
@@ -171,11 +180,12 @@ def run(ck):
 
     # Lean-evaluated Gen and Spec on the same patterns
     gen = None
-    pd = ck.lean_run("TfelVerif/C16/Driver.lean", input=text, timeout=1200)
-    if pd.returncode == 0 and len(pd.stdout.splitlines()) == len(pats):
-        gen = [l.split() for l in pd.stdout.splitlines()]
-    else:
-        ck.log("Lean driver unavailable: %s" % (pd.stderr or pd.stdout)[-300:])
+    if tie_err is None:     # otherwise Gen.lean is stale (it describes another tree)
+        pd = ck.lean_run("TfelVerif/C16/Driver.lean", input=text, timeout=1200)
+        if pd.returncode == 0 and len(pd.stdout.splitlines()) == len(pats):
+            gen = [l.split() for l in pd.stdout.splitlines()]
+        else:
+            ck.log("Lean driver unavailable: %s" % (pd.stderr or pd.stdout)[-300:])
 
     reported = set()
     nontrivial = set()
@@ -232,7 +242,7 @@ def run(ck):
     totals = {}
     bulk_eval = 0
     hist = {}
-    deep = (not ck.quick) or (not res.ok) or bool(reported)
+    deep = (not ck.quick) or (res is None) or (not res.ok) or bool(reported)
     for name in bins:
         runs = [[bins[name], "sample", str(ck.seed), "400" if ck.quick else "4000", "4"]]
         if deep:
@@ -270,8 +280,11 @@ def run(ck):
                 if any(real[n] != g[6:9] for n in real):
                     return rep     # the real code also misclassifies this pattern
         return None
-    ck.lean_violations(res, search)
-    if ck.tier == "thorough" and res.ok:
+    if res is not None:
+        ck.lean_violations(res, search)
+    if tie_err is not None:
+        ck.tie_broken(tie_err)
+    if ck.tier == "thorough" and res is not None and res.ok:
         for m_, log in ck.leanchecker(PROPS):
             ck.violation("leanchecker:" + m_, "leanchecker rejects " + m_, {"log": log}, False)
 
